@@ -78,6 +78,12 @@ func genGeneric(prop string, tweak func(g *genCtx), mix Mix) func(seed, run int6
 				g.opProvide(g.pickScope())
 			}
 		}
+		if g.tmpl != nil {
+			// templates build the in-flight state a property needs (DESIGN §4.1)
+			half := len(g.h.Ops) + (g.ft.MaxOps-len(g.h.Ops))/2
+			g.randomOps(half, mix)
+			g.tmpl(g)
+		}
 		g.randomOps(g.ft.MaxOps, mix)
 		g.genFaults()
 		return g.h
@@ -348,12 +354,36 @@ func init() {
 			g.h.Cfg.Defer = g.r.P(0.35)
 			g.m.Defer = g.h.Cfg.Defer
 			g.ft.As = false
+			switch g.r.Intn(6) {
+			case 0:
+				g.tmpl = (*genCtx).tmplCrossSiblingCycle
+			case 1:
+				g.tmpl = (*genCtx).tmplDescendantCycle
+			}
 		}, Mix{Scope: 3, Provide: 12, Decorate: 1, Invoke: 7, VisStr: 0}),
 		Eval: evalSimple("C05", func(c *Checked) bool {
 			return c.Probes["cycle_reported"] > 0 || c.Probes["near_cycle_accepted"] > 0
 		}),
-		WantProbes: []string{"cycle_reported", "near_cycle_accepted", "runtime_cycle"},
+		WantProbes: []string{"cycle_reported", "near_cycle_accepted", "runtime_cycle", "graph_case", "graph_cycle_path", "cycle_cross_sibling", "cycle_descendant_only"},
 	})
+	{
+		// every 10th run exercises the cycle detector itself on an explicit digraph
+		cd := Classes["C05"]
+		gen, eval := cd.Gen, cd.Eval
+		cd.Gen = func(seed, run int64, thorough bool) *History {
+			if run%10 == 9 {
+				r := NewRng(RunSeed(seed, "C05graph", run))
+				return &History{Prop: "C05", Seed: seed, Run: run, Class: "graph", Graph: genGraphCase(run/10, r)}
+			}
+			return gen(seed, run, thorough)
+		}
+		cd.Eval = func(h *History) *Outcome {
+			if h.Graph != nil {
+				return evalGraphCase(h)
+			}
+			return eval(h)
+		}
+	}
 	register(&ClassDef{
 		Prop: "C06",
 		Rule: "history with a rejected Provide or Decorate followed by at least 2 operations that touch one of its keys",
@@ -364,6 +394,9 @@ func init() {
 			g.ft.NT = g.r.Range(2, 5)
 			g.ft.Decorators = true
 			g.ft.PAvail = 0.9
+			if g.r.Intn(5) == 0 {
+				g.tmpl = (*genCtx).tmplDescendantCycle
+			}
 		}, Mix{Scope: 3, Provide: 10, Decorate: 5, Invoke: 8, VisStr: 1}),
 		Eval:       evalSimple("C06", hasProbe("reuse_after_reject")),
 		WantProbes: []string{"reject_dup", "reject_cycle", "reject_decorate", "reuse_after_reject"},
